@@ -120,6 +120,9 @@ MVal observe(const ctx::ContextValue &v)
   return m;
 }
 
+// name of a pooled object for messages ("#2" = third span/span context/baggage of the case's pool)
+std::string pointee_name(const void *p);
+
 const char *alt_name(int alt)
 {
   static const char *names[] = {"none", "bool", "i64", "u64", "dbl", "span", "spanctx", "baggage"};
@@ -138,6 +141,8 @@ std::string show_val(const MVal &m)
   o << names[m.alt];
   if (m.alt >= 1 && m.alt <= 4)
     o << ":" << (m.alt == 2 ? std::to_string(static_cast<int64_t>(m.bits)) : std::to_string(m.bits));
+  else if (m.alt >= 5)
+    o << pointee_name(m.ptr);
   return o.str();
 }
 
@@ -174,6 +179,31 @@ struct Objects
     return false;
   }
 };
+
+thread_local const Objects *t_objects = nullptr;
+
+struct ObjectsInScope
+{
+  explicit ObjectsInScope(const Objects *o) { t_objects = o; }
+  ~ObjectsInScope() { t_objects = nullptr; }
+};
+
+std::string pointee_name(const void *p)
+{
+  if (t_objects)
+  {
+    for (size_t i = 0; i < t_objects->spans.size(); ++i)
+      if (t_objects->spans[i].get() == p)
+        return "#" + std::to_string(i);
+    for (size_t i = 0; i < t_objects->scs.size(); ++i)
+      if (t_objects->scs[i].get() == p)
+        return "#" + std::to_string(i);
+    for (size_t i = 0; i < t_objects->bags.size(); ++i)
+      if (t_objects->bags[i].get() == p)
+        return "#" + std::to_string(i);
+  }
+  return p ? "#other" : "#null";
+}
 
 // how a value is drawn from the stream; materialised later (possibly on another thread)
 struct VSpec
@@ -373,6 +403,7 @@ struct Member
   int ident  = 0;     // observed identity class (operator==)
   bool live  = true;  // false: dropped (ctx_map) / not held by the harness (rt_*)
   int parent = -1;
+  size_t chain = 0;  // ctx_map: number of bindings stacked up behind this context
   std::string how;
 };
 
@@ -448,6 +479,17 @@ void sweep(const std::vector<Member> &fam, const std::string &after)
     CK(root == (rv.alt == 1 && rv.bits == 1),
        "after " << after << ": IsRootSpan(context #" << i << ") = " << root << " but the binding is "
                 << show_val(rv));
+    // the span of an EXPLICIT context (nothing is attached on this thread)
+    MVal sv = lookup(fam[i].m, trace::kSpanKey);
+    auto sp = trace::GetSpan(fam[i].c);
+    CK(sp.get() != nullptr, "after " << after << ": GetSpan(context #" << i << ") returned null");
+    if (sv.alt == 5)
+      CK(sp.get() == sv.ptr, "after " << after << ": GetSpan(context #" << i << ") is not the span bound there ("
+                                      << show_val(sv) << ")");
+    else
+      CK(!sp->GetContext().IsValid() && (t_objects == nullptr || !t_objects->ours(sp.get())),
+         "after " << after << ": GetSpan(context #" << i << ") returned a real span although "
+                  << show_key(trace::kSpanKey) << " is bound to " << show_val(sv));
   }
 }
 
@@ -571,18 +613,20 @@ VH_TARGET(ctx_map, 4,
   std::vector<Member> fam;
   int next_ident  = 1;
   uint64_t serial = 0;
+  ObjectsInScope objects_in_scope(&objs);
   {
     Member root;
     root.how   = "Context()";
     root.ident = 0;
     fam.push_back(root);
   }
-  auto add = [&](ctx::Context nc, Map m, int parent, int copy_of, const std::string &how) {
+  auto add = [&](ctx::Context nc, Map m, int parent, int copy_of, const std::string &how, size_t chain) {
     Member mb;
     mb.c      = std::move(nc);
     mb.m      = std::move(m);
     mb.parent = parent;
     mb.how    = how;
+    mb.chain  = chain;
     mb.ident  = classify(fam, mb.c, mb.m, copy_of, &next_ident);
     fam.push_back(std::move(mb));
     c.note("  -> #" + std::to_string(fam.size() - 1) + "\n");
@@ -597,7 +641,7 @@ VH_TARGET(ctx_map, 4,
   unsigned nops = 1 + rd.below(28);
   for (unsigned op = 0; op < nops && (op == 0 || !rd.exhausted()); ++op)
   {
-    size_t kind = rd.weighted({30, 20, 16, 8, 6, 6});
+    size_t kind = rd.weighted({30, 20, 16, 8, 6, 6, 5});
     if (live_count() >= 32 && kind != 2)
       kind = 5;
     std::string text;
@@ -638,7 +682,7 @@ VH_TARGET(ctx_map, 4,
           c.nontrivial = true;
         }
         m[kp.k[ki]] = val.second;
-        add(res, std::move(m), static_cast<int>(ri), -1, text);
+        add(res, std::move(m), static_cast<int>(ri), -1, text, fam[ri].chain + 1);
         break;
       }
       case 1:  // SetValues
@@ -703,7 +747,8 @@ VH_TARGET(ctx_map, 4,
         }
         if (!single && ps.size() != 1)
           c.nontrivial = true;
-        add(res, std::move(m), kind == 1 ? static_cast<int>(ri) : -1, -1, text);
+        add(res, std::move(m), kind == 1 ? static_cast<int>(ri) : -1, -1, text,
+            (kind == 1 ? fam[ri].chain : 0) + ps.size());
         break;
       }
       case 2:  // query through a short-lived key view
@@ -754,7 +799,46 @@ VH_TARGET(ctx_map, 4,
         c.note(text + "\n");
         c.tag("op-Copy");
         CK(d == fam[ri].c && fam[ri].c == d, text << ": the copy does not compare equal to its source");
-        add(d, fam[ri].m, fam[ri].parent, static_cast<int>(ri), text);
+        add(d, fam[ri].m, fam[ri].parent, static_cast<int>(ri), text, fam[ri].chain);
+        break;
+      }
+      case 6:  // a long chain: many SetValue calls in a row on the newest result, two keys in turn
+      {
+        size_t ri  = pick_live(rd, fam);
+        unsigned n = 8 + rd.below(56);
+        static const unsigned pairs[4][2] = {{0, 1}, {kKeyEmpty, 3}, {9, 10}, {11, 12}};
+        unsigned ks = rd.below(4);
+        if (fam[ri].chain > 200)
+        {
+          mutated = false;
+          break;
+        }
+        text = "SetValue x" + std::to_string(n) + "(#" + std::to_string(ri) + "," + show_key(kp.k[pairs[ks][0]]) +
+               "/" + show_key(kp.k[pairs[ks][1]]) + ")";
+        c.note(text + "\n");
+        c.tag("op-SetValue-chain");
+        ctx::Context cur = fam[ri].c;
+        Map m            = fam[ri].m;
+        int parent       = static_cast<int>(ri);
+        for (unsigned i = 0; i < n; ++i)
+        {
+          unsigned ki = pairs[ks][i & 1];
+          auto val    = make_value(VSpec{}, ++serial, objs);
+          KeyArg ka(kp.k[ki], 0);
+          cur = cur.SetValue(ka.view, val.first);  // the intermediate result is dropped right away
+          ka.scribble();
+          m[kp.k[ki]] = val.second;
+          // a few intermediate contexts stay in the family
+          if (i % 16 == 15 && i + 1 < n && live_count() < 30)
+          {
+            add(cur, m, parent, -1, text + " step " + std::to_string(i), fam[ri].chain + i + 1);
+            parent = static_cast<int>(fam.size() - 1);
+          }
+        }
+        c.tag("rebind-shadow");
+        c.nontrivial = true;
+        add(cur, std::move(m), parent, -1, text, fam[ri].chain + n);
+        c.tag(fam.back().chain > 100 ? "chain>100" : fam.back().chain > 24 ? "chain25-100" : "chain<=24");
         break;
       }
       default:  // destroy one context; everything derived from it must keep answering
@@ -792,6 +876,22 @@ VH_TARGET(ctx_map, 4,
 // ================================================================================================
 namespace
 {
+
+// std::thread throws std::system_error when the OS refuses a thread (a loaded machine); that is
+// not a verdict about the code under test, so callers fall back / skip instead of failing
+template <class F>
+bool start_thread(std::thread &out, F &&f)
+{
+  try
+  {
+    out = std::thread(std::forward<F>(f));
+    return true;
+  }
+  catch (const std::system_error &)
+  {
+    return false;
+  }
+}
 
 struct Barrier
 {
@@ -1062,6 +1162,17 @@ struct Machine
     return fam.size() - 1;
   }
 
+  // a context that was just derived answers as the model says (all machine keys + the marker)
+  void verify_member(size_t fi)
+  {
+    const KeyPool &kp = pool();
+    const Member &mb  = fam[fi];
+    for (unsigned ki : machine_keys())
+      check_lookup(mb.c, mb.m, kp.k[ki], nostd::string_view(kp.k[ki].data(), kp.k[ki].size()),
+                   "new context #" + std::to_string(fi) + " (" + mb.how + ")");
+    check_lookup(mb.c, mb.m, kOwnerKey, kOwnerKey, "new context #" + std::to_string(fi) + " (" + mb.how + ")");
+  }
+
   const Member &top() const { return stack.empty() ? fam[0] : fam[static_cast<size_t>(stack.back().fam)]; }
 
   Expect model_detach(int ident)
@@ -1305,7 +1416,8 @@ struct Machine
       Tok &tk        = toks[lt[o.b % lt.size()]];
       ctx::Token *tp = tk.t.get();
       bool is_empty_ctx = tk.ident == fam[0].ident;
-      std::thread th([&err, tp, is_empty_ctx] {
+      std::thread th;
+      bool started = start_thread(th, [&err, tp, is_empty_ctx] {
         try
         {
           CK(ctx::RuntimeContext::GetCurrent() == ctx::Context(),
@@ -1321,6 +1433,11 @@ struct Machine
           err = f.msg;
         }
       });
+      if (!started)
+      {
+        tag("thread-create-failed");
+        return;
+      }
       th.join();
       tag("foreign-detach-of-our-token");
     }
@@ -1330,7 +1447,8 @@ struct Machine
       size_t fi       = hm[o.b % hm.size()];
       ctx::Context fc = fam[fi].c.SetValue(kForeignKey, static_cast<int64_t>(++serial));
       nostd::unique_ptr<ctx::Token> handed;
-      std::thread th([&err, &handed, &fc, variant] {
+      std::thread th;
+      bool started = start_thread(th, [&err, &handed, &fc, variant] {
         try
         {
           CK(ctx::RuntimeContext::GetCurrent() == ctx::Context(),
@@ -1352,6 +1470,11 @@ struct Machine
           err = f.msg;
         }
       });
+      if (!started)
+      {
+        tag("thread-create-failed");
+        return;
+      }
       th.join();
       if (err.empty() && handed.get() != nullptr)
       {
@@ -1463,7 +1586,8 @@ struct Machine
           res          = res.SetValue(kOwnerKey, static_cast<int64_t>(tid));
           m[kOwnerKey] = observe(ctx::ContextValue(static_cast<int64_t>(tid)));
         }
-        add_member(res, std::move(m), -1, how);
+        size_t ni = add_member(res, std::move(m), -1, how);
+        verify_member(ni);
         tag(o.kind == K_DERIVE_CUR ? "derive-from-current" : "derive");
         break;
       }
@@ -1588,6 +1712,7 @@ struct Machine
 
   void run(const Program &p)
   {
+    ObjectsInScope objects_in_scope(&objs);
     phase = "thread start";
     check_current();
     size_t i = 0;
@@ -1652,10 +1777,10 @@ VH_TARGET(rt_stack, 6,
   c.tag(own_thread ? "runs-on-new-thread" : "runs-on-driver-thread");
   Machine m(-1);
   std::string err;
-  auto body = [&] {
+  auto body = [&](bool fresh) {
     try
     {
-      if (!own_thread)
+      if (!fresh)
         reset_this_thread();
       m.run(p);
     }
@@ -1667,13 +1792,15 @@ VH_TARGET(rt_stack, 6,
       m.toks.clear();
     }
   };
-  if (own_thread)
-  {
-    std::thread th(body);
+  std::thread th;
+  if (own_thread && start_thread(th, [&] { body(true); }))
     th.join();
-  }
   else
-    body();
+  {
+    if (own_thread)
+      c.tag("thread-create-failed");
+    body(false);
+  }
   merge(c, m, "");
   if (!err.empty())
     c.fail(err);
@@ -1720,7 +1847,8 @@ VH_TARGET(rt_threads, 8,
   std::vector<std::thread> threads;
   for (unsigned t = 0; t < nthr; ++t)
   {
-    threads.emplace_back([&, t] {
+    std::thread th;
+    bool started = start_thread(th, [&, t] {
       try
       {
         machines[t].reset(new Machine(static_cast<int>(t)));
@@ -1747,6 +1875,13 @@ VH_TARGET(rt_threads, 8,
       }
       barrier.leave();
     });
+    if (started)
+      threads.push_back(std::move(th));
+    else
+    {
+      barrier.leave();
+      c.tag("thread-create-failed");
+    }
   }
   for (auto &th : threads)
     th.join();
